@@ -135,6 +135,14 @@ def run_bounded(bid, tier='quick', repo='/repo', extra_args=None):
         res.update(status='undecided', note='bounded harness produced no result (rc=%s): %s' % (q.returncode, q.stderr[-800:]), wall_s=round(time.time() - t0, 2))
         return res
     res.update(out)
+    # a failure of the harness itself (its generator produced an input the real code rejects, its reader does not
+    # understand the output's shape) is not a statement about the property: such signatures make the check UNDECIDED
+    hp = {k: v for k, v in (res.get('signatures') or {}).items() if k.startswith(('harness:', 'generator:'))}
+    if hp:
+        res['signatures'] = {k: v for k, v in res['signatures'].items() if k not in hp}
+        res['failures'] = [f for f in res.get('failures', []) if f.get('signature') not in hp]
+        res['failure_count'] = sum(res['signatures'].values())
+        res['harness_problems'] = hp
     if reg.get('miri') and not extra_args:
         # the same program interpreted by Miri on a fixed list of inputs: undefined behaviour (invalid free, use after
         # free, wrong layout ..) aborts the interpreter with a report
@@ -165,9 +173,9 @@ def run_bounded(bid, tier='quick', repo='/repo', extra_args=None):
                 res['miri'] = dict(status='ok', histories='6 fixed histories x 2 buffer shapes, interpreted without undefined behaviour')
             else:
                 res['miri'] = dict(status='undecided', note=txt[-800:])
-    res['status'] = 'violation' if res.get('failure_count') else ('undecided' if (res.get('miri') or {}).get('status') == 'undecided' else 'ok')
+    res['status'] = 'violation' if res.get('failure_count') else ('undecided' if ((res.get('miri') or {}).get('status') == 'undecided' or res.get('harness_problems')) else 'ok')
     if res['status'] == 'undecided':
-        res['note'] = 'miri step undecided: ' + str((res.get('miri') or {}).get('note'))[:600]
+        res['note'] = ('harness problem(s): %s' % json.dumps(res['harness_problems'])[:600]) if res.get('harness_problems') else ('miri step undecided: ' + str((res.get('miri') or {}).get('note'))[:600])
     res['wall_s'] = round(time.time() - t0, 2)
     if scratch_tree:
         shutil.rmtree(work, ignore_errors=True)
